@@ -6,6 +6,10 @@ commute with the rotation, blocks of wires are enumerated cyclically, the labels
 enumeration, the induction matrix depends on the wire distance only (Toeplitz), the pad rows are placed
 antisymmetrically about the mid-plane — and that the induction matrix of a block that covers the whole ring couples
 the wires by *ring* distance (today it does not: known finding F7)."""
+import json
+import re
+
+from .. import accept
 from ..facts import AnchorMissing
 from .. import funeval
 from ..finite import eval_poly
@@ -651,7 +655,147 @@ def run(prog, tier, res):
     for l, nm_ in lists.items():
         if l not in sorted_lists and not any(v.key().startswith("C13.R10|%s|" % MCI) for v in res.violations):
             res.violate(R10, MCI, "unsorted:%s" % nm_, "the hits of %s are matched without the amplitude sort" % nm_, bm.where())
+    # ------------------------------------------------------------------ R11: the three-row window of pad_hits_at_t
+    R11 = res.rule("C13.R11", "pad_hits_at_t: a three-row window slides by exactly one row per iteration over all rows (first := middle, middle := this row's "
+                   "sample or 0.0, on every iteration path; seeded with rows 0 and 1), one hit per local maximum, hit built from the window", 4)
+    res.functions.add(PADHITS)
+    pw = pad_window(prog)
+    wsp = accept.load_spec("c13.json")["pad_window"]
+    for key_, what in (("init", "the window is seeded with rows 0 and 1 (`get(t).copied().unwrap_or(0.0)`) and the loop visits rows 2.. in order"),
+                       ("updates", "on every iteration path first := middle and then middle := the row's sample (or 0.0)"),
+                       ("pushes", "exactly one iteration path pushes a hit"),
+                       ("value", "the hit is built from the window (row - 1, first, middle, last)")):
+        if pw.get(key_) == wsp[key_]:
+            res.hit(R11)
+        else:
+            res.violate(R11, PADHITS, "window:%s" % key_, "%s: found %s" % (what, json.dumps(pw.get(key_))[:500]), prog.body(PADHITS).where(), detail={"got": pw.get(key_), "want": wsp[key_]})
     res.undecided = ["bit-identical equivariance of the floating-point kernels (Cholesky solve, greedy deconvolution, matching by sorted amplitude)",
                      "contiguous_ranges: the scan loop that finds the blocks (the seam merge that follows it is R9)",
-                     "mirror image of the three-row centroid in pad_hits_at_t (sliding window over rows)"]
+                     "mirror image of the centroid formula itself in floating point (the window that feeds it is R11)"]
     res.assumptions = ["rotation by k pad columns is k applications of the one-column rotation checked here"]
+
+
+PADHITS = M + "pad_hits_at_t"
+
+
+def pad_window(prog):
+    """the row loop of pad_hits_at_t as data, in role vocabulary (W0 = first, W1 = middle, CUR = this row's sample, ROW = the
+    loop's row index, SAMPLE(r) = `rows[r].get(t)` or 0.0): seeds of the carried window cells and the rows visited, the
+    update of each cell per iteration, the guards that dominate the push of a hit inside the loop, and the pushed value.
+    Extracted by dominance and reaching definitions (not by path enumeration), so that the way a sample is read (helper,
+    match, unwrap_or) and the way the rows are visited (enumerate().skip(2) or an index range) do not matter."""
+    from ..sym import atom_str
+    b = prog.body(PADHITS)
+    an = analysis(prog, b, positions=True)
+    sy = Sym(prog, an, slice_param=99)
+    tm = an.terms
+    heads = sorted(set(h for _, h in b.back_edges()))
+    out = {"init": None, "updates": None, "pushes": None, "guards": None, "value": None}
+    if len(heads) != 1:
+        return out
+    hd = heads[0]
+    lp = set()
+    tails = []
+    for tl, h in b.back_edges():
+        lp |= set(b.natural_loop(tl, h))
+        tails.append(tl)
+    carried = [l for l in range(len(b.locals)) if any(d[0] in lp for d in tm.defs.whole[l]) and any(d[0] not in lp for d in tm.defs.whole[l])
+               and b.locals[l]["ty"].get("k") == "float"]
+    nexts = [(bb, t) for bb, t in b.calls() if bb in lp and short(cname(t)) == "Iterator::next"]
+    if len(nexts) != 1:
+        return out
+    tm._pos = (nexts[0][0], "t")
+    ncall = tm.call_term(nexts[0][1], nexts[0][0])
+    elem = sy.name(("field", ("downcast", ncall, "Some"), 0))
+    itn = sy.name(tm.operand(nexts[0][1]["args"][0]))
+    nrows = None
+    ty1 = b.locals[1]["ty"]
+    while ty1.get("k") == "ref":
+        ty1 = ty1["t"]
+    if ty1.get("k") == "array":
+        nrows = ty1.get("n")
+    # the rows visited and the names of (row index, row vector) in the two iteration forms
+    if itn == "mut(Iterator::skip(Iterator::enumerate(<impl [T]>::iter((arg1 as &[std::vec::Vec<f64>]))),2))":
+        rows = "2.."
+        alias = [(elem + ".1", "ROWVEC"), (elem + ".0", "ROW")]
+    else:
+        m = re.match(r"^mut\(Range\{(\d+),(\d+)\}\)$", itn)
+        if not (m and nrows is not None and int(m.group(2)) == nrows):
+            return out
+        rows = "%s.." % m.group(1)
+        alias = [("arg1[%s]" % elem, "ROWVEC"), ("Index::index(arg1,%s)" % elem, "ROWVEC"), (elem, "ROW")]
+
+    def sample(x):
+        return re.sub(r"Option::<T>::unwrap_or\(Option::<&T>::copied\(<impl \[T\]>::get\(([^()]*(?:\[[^\]]*\])?),arg2\)\),0\.0\)", r"SAMPLE(\1)", x)
+    roles = {}
+    inits = {}
+    for l in carried:
+        outs = [d for d in tm.defs.whole[l] if d[0] not in lp]
+        if len(outs) != 1:
+            return out
+        nm = sample(sy.name(sy._def_term(outs[0])))
+        m = re.match(r"^SAMPLE\(arg1\[(\d+)\]\)$", nm)
+        if not m:
+            return out
+        roles[l] = "W%s" % m.group(1)
+        inits[roles[l]] = nm
+
+    def al(x):
+        for a_, b_ in alias:
+            x = x.replace(a_, b_)
+        x = sample(x).replace("SAMPLE(ROWVEC)", "CUR")
+        for init_, ls in getattr(sy, "_loop_syms", {}).items():
+            for k, l in reversed(list(enumerate(ls))):
+                if l in roles:
+                    x = x.replace("loop(%s)" % init_ if k == 0 else "loop#%d(%s)" % (k + 1, init_), roles[l])
+        return x
+    def sub_roles(x):
+        """reads of the window cells by role: the value at the loop header (`Wk`) or the one assigned in this iteration"""
+        if not isinstance(x, tuple) or not x or not isinstance(x[0], str):
+            return x
+        if x[0] == "var" and x[1] in roles and len(x) > 2:
+            rd = sy.reaching(x[1], x[2])
+            return ("cdef", roles[x[1]] if rd == {"HEADER"} else "new " + roles[x[1]])
+        o_ = [x[0]]
+        for y in x[1:]:
+            if isinstance(y, tuple) and y and isinstance(y[0], str):
+                o_.append(sub_roles(y))
+            elif isinstance(y, tuple):
+                o_.append(tuple(sub_roles(z) if isinstance(z, tuple) else z for z in y))
+            else:
+                o_.append(y)
+        return tuple(o_)
+    out["init"] = {"cells": dict(sorted(inits.items())), "rows": rows}
+    # updates: one definition per cell inside the loop, executed on every iteration
+    ups = []
+    for l in carried:
+        ins = [d for d in tm.defs.whole[l] if d[0] in lp]
+        if len(ins) != 1 or not all(b.dominates(ins[0][0], tl) for tl in tails):
+            ups.append([roles[l], "not updated exactly once on every iteration (%d definition(s))" % len(ins)])
+            continue
+        d = ins[0]
+        tm._pos = (d[0], d[1])
+        dt = strip(sy._def_term(d))
+        if dt[0] == "var" and dt[1] in roles:
+            rd = sy.reaching(dt[1], dt[2] if len(dt) > 2 else (d[0], d[1]))
+            val = ("old " if rd == {"HEADER"} else "new ") + roles[dt[1]]
+        else:
+            val = al(sy.name(dt))
+        ups.append([roles[l], val])
+    out["updates"] = sorted(ups)
+    pushes = [(bb, t) for bb, t in b.calls() if bb in lp and short(cname(t)) == "Vec::<T, A>::push"]
+    out["pushes"] = len(pushes)
+    if len(pushes) == 1:
+        pbb, pt = pushes[0]
+        pre = set(str(an.edge_atom(*e)) for e in an.dominating_edges(hd))
+        ats = []
+        for e in an.dominating_edges(pbb):
+            if e[0] not in lp:
+                continue
+            d_, rel, vals = an.edge_atom(*e)
+            ats += sy.atoms(sub_roles(d_), rel, vals)
+        simp = accept.simplify(ats, sy.sym_box) or []
+        out["guards"] = sorted(al(atom_str(a_)) for a_ in simp if not atom_str(a_).startswith("Iterator::next("))
+        tm._pos = (pbb, "t")
+        out["value"] = al(sy.name(sub_roles(tm.operand(pt["args"][1]))))
+    return out
